@@ -182,6 +182,12 @@ def cli_eups(cmdname, args):
     return ecmd
 
 
+def preimport():
+    """Import (never construct) the command-line module in the parent, so that forked children do not pay for it."""
+    common.import_eups()
+    import eups.cmd  # noqa: F401
+
+
 def quietly(fn, *a, **kw):
     with contextlib.redirect_stdout(io.StringIO()), contextlib.redirect_stderr(io.StringIO()):
         return fn(*a, **kw)
